@@ -59,6 +59,8 @@ class Layout:
         self.lengths = []    # (kind, pos, value, start, end)
         self.label_starts = set()
         self.records = []    # (start, type, rdata_start, rdata_end)
+        self.param_keys = []  # SvcParam keys in wire order (all records)
+        self.addr_counts = []  # (kind 'ECS'|'APL', family, prefix or (src,scope), octets on the wire, raw octets)
 
 
 def expand_name(msg, off, lay, where, limit=None):
@@ -190,6 +192,7 @@ def option(w):
             raise Reject("ECS family")
         src = body.u(1)
         scope = body.u(1)
+        lay.addr_counts.append(("ECS", fam, (src, scope), body.end - body.pos, bytes(body.msg[body.pos:body.end])))
         a = prefix_addr(body, fam, max(src, scope), "ECS")
         return "(ECS %d %d %d %s)" % (fam, src, scope, hx(a))
     if code == 10:
@@ -213,6 +216,7 @@ def svc_param(w):
     n = w.u(2)
     b = w.sub(n)
     lay.lengths.append(("param", pos + 2, n, pos + 4, pos + 4 + n))
+    lay.param_keys.append(key)
     if key == 0:
         ks = []
         while not b.done():
@@ -378,6 +382,7 @@ def record(w, lay):
             b = rd.u(1)
             body = rd.sub(b & 127)
             lay.lengths.append(("afd", apos, b & 127, apos + 1, apos + 1 + (b & 127)))
+            lay.addr_counts.append(("APL", fam, prefix, b & 127, bytes(body.msg[body.pos:body.end])))
             a = prefix_addr(body, fam, prefix, "APL")
             items.append("(I %d %d %d %s)" % (fam, prefix, b >> 7, hx(a)))
         data = "(APL (L%s))" % "".join(" " + i for i in items)
